@@ -14,7 +14,7 @@ class Gen:
         self.in_fn = 0
         self.in_loop = 0
         self.ncb = 0                  # number of callback call sites emitted (upper bound on invocations is dynamic)
-        self.feat = dict(tryc=True, fns=True, lambdas=True, cbs=True, errors=True, refs=True, vecs=False, globals=False, strs=False, trybias=False, optbias=False, evals=False, overloads=True, refassign=False)
+        self.feat = dict(tryc=True, fns=True, lambdas=True, cbs=True, errors=True, refs=True, vecs=False, globals=False, strs=False, trybias=False, optbias=False, evals=False, overloads=True, refassign=False, exctypes=False)
         if feat:
             self.feat.update(feat)
         self.hist = {}
@@ -398,8 +398,9 @@ class Gen:
                 clauses.append("(catch %s)" % self.block(depth))
                 break                                    # an untyped bare clause catches everything: later clauses are dead
             n = self.fresh()
-            ty = r.choice([None, "int", "bool", "int"] + (["string"] if self.feat["strs"] else []))
-            self.scopes.append({n: {None: "any", "int": "ctr", "bool": "bool", "string": "any"}[ty]})      # a caught value is const: read-only
+            ty = r.choice([None, "int", "bool", "int"] + (["string"] if self.feat["strs"] else [])
+                          + (["runtime_error", "out_of_range", "logic_error", "eval_error", "exception", "runtime_error", "eval_error"] if self.feat["cbs"] and self.feat["exctypes"] else []))
+            self.scopes.append({n: {None: "any", "int": "ctr", "bool": "bool", "string": "any"}.get(ty, "any")})      # a caught value is const: read-only
             blk = self.block(depth)
             self.scopes.pop()
             clauses.append("(catch %s %s)" % (n, blk) if ty is None else "(catch %s %s %s)" % (n, ty, blk))
